@@ -496,6 +496,9 @@ func (e *fnEnc) call(st *state, at ssa.Value, c *ssa.CallCommon, instr ssa.Instr
 		}
 	}
 	for _, en := range fc.Ensures {
+		if en.Ghost {
+			e.V.Assumed[fmt.Sprintf("ghost naming clause of %s: [%s] %s", key, en.Label, en.Src)] = true
+		}
 		t, ok := func() (t string, ok bool) {
 			defer func() {
 				if r := recover(); r != nil {
